@@ -222,6 +222,13 @@ class ScriptSock:
     def close(self):
         pass
 
+    def recv_into(self, buffer, nbytes=0, flags=0):
+        # a legitimate implementation may read in place; same scripted behaviours as recv
+        mv = memoryview(buffer).cast("B")
+        data = self.recv(nbytes or len(mv), flags)
+        mv[:len(data)] = data
+        return len(data)
+
     def recv(self, n, flags=0):
         self.nrecv += 1
         if n <= 0:
